@@ -20,7 +20,7 @@ N_BIG = {'quick': 12, 'thorough': 1500}        # histories over 20-150 systems (
 RULE = ('cases: (a) seeded random histories of 30-200 ops (add 45%/remove 25%/step 20%/duplicate-add 5%/unknown-remove 5%) '
         'over 6-10 system ids with priorities from {-3..3, +-10^12} forced to repeat, systems re-registered after removal '
         '(priority sometimes changed while unregistered), real Collector subclasses (default priority -1) mixed in, registrations / removals / '
-        're-registrations also issued from inside a timestep by a system (also in the middle of ONE execute(n) call), timesteps requested through execute_systems() / execute() / execute(n) / the deprecated alias, identifiers as str-subclass instances, priorities as numpy integers, falsy system objects (__len__ 0 / __bool__ False), models with a quiet user logger, and usually two models alive at once that share the system ids; '
+        're-registrations also issued from inside a timestep by a system (also in the middle of ONE execute(n) call), timesteps requested through execute_systems() / execute() / execute(n) / the deprecated alias, identifiers as str-subclass instances, priorities as numpy integers, falsy system objects (__len__ 0 / __bool__ False), models with a quiet user logger, timesteps cut short by a system that raises (ordinary exceptions of many classes and KeyboardInterrupt-like BaseExceptions; the caller catches and carries on), and usually two models alive at once that share the system ids; '
         '(a2) the same over 20-150 systems with the queue filled first (scale regime: long queues, many ties); (b) for each priority multiset over n<=N systems every distinct registration order (exhaustive). '
         'A case is non-trivial when an executed timestep contained >=1 pair of equal-priority neighbours AND (for '
         'histories) >=1 system was re-registered; distinct = distinct (priority sequence in registration order, op-kind '
@@ -28,7 +28,7 @@ RULE = ('cases: (a) seeded random histories of 30-200 ops (add 45%/remove 25%/st
 ASSUMPTIONS = ['priorities are fixed while a system is registered (as the property states)',
                'systems do not override __eq__ (identity equality)',
                'the System/Collector subclasses used for logging only append to a list in execute()/collect()']
-FLOORS = {'quick': {'unrelated_models_constructed_mid_history': 1979, 'steps_after_in_call_change': 2311, 'steps_inside_multi_step_call': 7526, 'step_via_executeSystems': 3411, 'step_via_execute': 3434, 'falsy_system_objects': 3454, 'tie_pairs': 500, 'rejected_add': 50, 'rejected_remove': 50, 'steps_compared': 2000,
+FLOORS = {'quick': {'failing_system_interrupt': 317, 'timesteps_with_a_failing_system': 1114, 'unrelated_models_constructed_mid_history': 1979, 'steps_after_in_call_change': 1783, 'steps_inside_multi_step_call': 5906, 'step_via_executeSystems': 3411, 'step_via_execute': 3434, 'falsy_system_objects': 3454, 'tie_pairs': 500, 'rejected_add': 50, 'rejected_remove': 50, 'steps_compared': 2000,
                     'reregistrations': 200, 'in_cycle_change_steps': 1000, 'big_histories': 6, 'big_systems': 300, 'two_model_histories': 500, 'contract:SystemManager.queue': 1000, 'reach:Core.SystemManager.add_system': 1000,
                     'reach:Core.SystemManager.execute_systems': 1000},
           'thorough': {'tie_pairs': 50000, 'rejected_add': 5000, 'rejected_remove': 5000, 'steps_compared': 100000,
@@ -51,6 +51,10 @@ def _fixtures():
 
         def execute(self):
             self.log.append((self.model.systems.timestep, self.id))
+            fault = getattr(self.log, 'plan', {}).pop(self.id, None)       # a one-shot failure scheduled by the driver
+            if fault is not None:
+                from vlib import faults
+                raise faults.make(fault, f'{self.id} fails')
 
     # user systems that are falsy although perfectly valid: a job queue that is empty (len 0), a switch that is off (bool False)
     LogSystemSized = type('LogSystemSized', (LogSystem,), {'__len__': lambda self: 0})
@@ -68,7 +72,7 @@ def _fixtures():
             self.intended_priority = -1 if priority is None else priority      # documented collector default: -1
 
         def collect(self):
-            self.log.append((self.model.systems.timestep, self.id))
+            LogSystem.execute(self)
 
     class LogCollectorSized(LogCollector):
         """len(collector) = number of records collected so far (0: nothing is ever stored by collect() above)."""
@@ -116,7 +120,10 @@ class Driver:
         self.contracts = contracts
         self.model = reps.make_model(self.rng, self.core) if rng is not None else self.core.Model()
         self.pending_at, self.order_at_start, self.mutated = {}, {}, set()
-        self.log = []
+        class Log(list):
+            plan = None
+        self.log = Log()
+        self.log.plan = {}
         self.ref = []       # registered: dicts {id, obj, prio, seq}
         self.seq = 0
         self.trace = []
@@ -228,6 +235,28 @@ class Driver:
         self.trace.append('M')
         self.lookups()
 
+    def step_failing(self):
+        """A timestep in which one of the systems raises (an ordinary exception or a KeyboardInterrupt-like BaseException); the caller
+        catches it and carries on with the same model.  What ran must be a prefix of the order; everything afterwards is judged as usual."""
+        from vlib import faults
+        if not self.ref:
+            return
+        victim = self.rng.choice(self.ref)['id']
+        cls = faults.pick(self.rng)
+        del self.log[:]
+        self.log.plan[victim] = cls
+        exp = self.expected_order()
+        _, err = faults.attempt(self.model.systems.execute_systems if self.rng.random() < 0.5 else self.model.execute)
+        self.log.plan.clear()
+        got = [i for _, i in self.log]
+        self.ctx.count('timesteps_with_a_failing_system')
+        self.ctx.count('failing_system_interrupt' if cls is faults.Interrupt else 'failing_system_exception')
+        if got != exp[:len(got)]:
+            raise CaseViolation('the systems that ran in a timestep cut short by a failing system are not a prefix of (descending priority, '
+                                'registration order)', expected=exp, observed=got, failing=victim, error=repr(err))
+        self.trace.append('F')
+        self.lookups()
+
     def step_many(self, n, schedule):
         """ONE call model.execute(n); `schedule` maps an offset within the call to changes a system applies during that timestep.
         Every timestep of the call in which nothing was changed must run exactly the order valid at its start."""
@@ -335,6 +364,9 @@ def case_history(ctx, case):
             d.step_mutating()
             ties += d.step()
             rereg += 1
+        elif x < 0.73 and not big:
+            d.step_failing()
+            # the caller goes on: more registrations / removals may follow before the next (complete) timestep is compared
         elif x < 0.76:
             # one multi-step call, with registrations / removals / re-registrations applied by a system somewhere inside it
             n_ = rng.randint(2, 6)
